@@ -157,36 +157,54 @@ def run(F, R, tier):
         ok = len(c) == 1 and all(o[0] == "call" and o[1] == ID + "::denormalized_components" and o[-1] == "0" for o in H.origins(c[0]["args"][0], env))
         r2.site("check_network: validate_network_name(denormalized_components(method_id).0): %s" % ok)
         r2.require(ok, (ID + "::check_network", "predicate"), "check_network does not validate the network component")
-    h = F.hir(NN + "::validate_network_name")
-    if r2.anchor(h, NN + "::validate_network_name"):
-        cl = [n for n in H.walk(H.root(h)) if n.get("k") == "closure"]
-        okn = False
-        maxlen = H.literals(H.root(F.bodies[NN + "::MAX_LENGTH"]["hir"])) if F.bodies.get(NN + "::MAX_LENGTH") else None
-        for c_ in cl:
-            cjs = H.conjuncts(c_["body"])
-            kinds = set()
-            for cj in cjs:
-                inner, neg = H.negated(cj)
-                inner = H.strip(inner)
-                fns = {f.rsplit("::", 1)[-1] for f in H.called_fns(inner)}
-                if neg and "is_empty" in fns:
-                    kinds.add("non-empty")
-                if inner.get("k") == "binary" and inner["op"] == "Le" and "len" in fns:
-                    kinds.add("max-len")
-                if "all" in fns and not neg:
-                    # fold the per-character predicate over the finite code-point domain: must accept exactly [a-z0-9]
-                    alls = [x for x in H.walk(inner) if x.get("k") == "mcall" and x["name"] == "all" and H.strip(x["recv"]).get("name") == "chars"]
-                    if len(alls) == 1 and H.strip(alls[0]["args"][0]).get("k") == "closure":
-                        got, why = CP.closure_accepted_set(F, H.strip(alls[0]["args"][0]))
-                        want = set(range(0x61, 0x7B)) | set(range(0x30, 0x3A))
-                        if got == want:
-                            kinds.add("charset")
-                        else:
-                            r2.note("network-name character predicate accepts %s" % (why if got is None else sorted(chr(c) for c in (got ^ want))[:12]))
-            if kinds == {"non-empty", "max-len", "charset"}:
-                okn = True
-        r2.site("validate_network_name: non-empty ∧ len ≤ MAX_LENGTH(%s) ∧ all lowercase/digit: %s" % (maxlen, okn))
-        r2.require(okn and maxlen == [6], (NN + "::validate_network_name", "predicate"), "network names are not restricted to 1..=6 lowercase ASCII alphanumerics")
+    vfn = NN + "::validate_network_name"
+    if r2.anchor(F.hir(vfn), vfn):
+        # (1) the per-character predicate handed to `chars().all(..)` (closure or function, also inside private helpers), folded over
+        #     the finite code-point domain, accepts exactly [a-z0-9]
+        want = set(range(0x61, 0x7B)) | set(range(0x30, 0x3A))
+        preds = []
+        for _f, hr in L.with_helpers(F, vfn):
+            for x in H.walk(hr):
+                if x.get("k") == "mcall" and x["name"] == "all" and H.strip(x["recv"]).get("name") == "chars" and x.get("args"):
+                    a0 = H.strip(x["args"][0])
+                    if a0.get("k") == "closure":
+                        preds.append(CP.closure_accepted_set(F, a0))
+                    elif a0.get("k") == "path" and (a0.get("res") or {}).get("def"):
+                        preds.append(CP.fn_accepted_set(F, a0["res"]["def"]))
+                    else:
+                        preds.append((None, "predicate is neither a closure nor a function path"))
+        okc = len(preds) == 1 and preds[0][0] == want
+        if not okc:
+            for got, why in preds:
+                r2.note("network-name character predicate accepts %s" % (why if got is None else sorted(chr(c) for c in (got ^ want))[:12]))
+        # (2) on the decision table: accepted only with 1 <= len(name) <= 6 and the predicate holding for every character
+        tabn = SR.Table(F, vfn, opaque=r"is_ascii_lowercase$|is_ascii_digit$|char::is_\w+$", rule=r2)
+        NAME = SR.param("name")
+
+        def is_len(t_):
+            return isinstance(t_, tuple) and t_[:1] == ("call",) and re.sub(r"<[^<>]*>", "", t_[1]).endswith("::len") and len(t_[2]) == 1 and SR.pure(t_[2][0], NAME)
+        okl = bool(tabn.ok())
+        saw_reject_char = False
+        for q in tabn.paths:
+            lo, hi = SR.int_bounds(q, is_len)
+            ne = [c for (a, c, _, _) in q.decisions if a[0] == "nonempty" and a[1] == NAME]
+            if ne == [True]:
+                lo = max(lo or 0, 1)
+            if ne == [False]:
+                hi = 0
+            if SR.is_success(q.ret) and not SR.is_failure(q.ret):
+                if not r2.require((lo, hi) == (1, 6), (vfn, "predicate"), "a network name is accepted with its length only known to be in [%s, %s], not 1..=6 — path: %s" % (lo, hi, q.describe()[:160])):
+                    okl = False
+                # an accepting path that looked at a character found the predicate true for it
+                for (a, c, _, _) in q.decisions:
+                    if a[0] == "nonempty" and isinstance(a[1], tuple) and a[1][:1] == ("call",) and a[1][1].endswith("chars") and c:
+                        pass
+            else:
+                if (lo, hi) == (1, 6) or (lo is not None and lo >= 1 and hi is not None and hi <= 6):
+                    saw_reject_char = True     # rejected although the length is fine: because of a character
+        r2.require(saw_reject_char or not tabn.paths, (vfn, "predicate"), "no path rejects a name of valid length for its characters")
+        r2.site("validate_network_name: 1 <= len <= 6 ∧ every char ∈ [a-z0-9]: length %s, charset %s" % (okl, okc))
+        r2.require(okc, (vfn, "predicate"), "network names are not restricted to 1..=6 lowercase ASCII alphanumerics (character predicate)")
     # normalize
     nf = ID + "::normalize"
     if r2.anchor(F.hir(nf), nf):
